@@ -40,6 +40,7 @@ const (
 	defaultModelsTarget         = "models"
 	defaultServerTarget         = "restapi"
 	defaultClientTarget         = "client"
+	defaultCliTarget            = "cli"
 	defaultOperationsTarget     = "operations"
 	defaultClientName           = "rest"
 	defaultServerName           = "swagger"
